@@ -290,6 +290,18 @@ def depTree (fuel : Nat) (st : State T V) (dt : T) : Option (State T V) :=
   | none => none
   | some t => some { st with tree := t, treeDt := treeDt }
 
+/-- the warm-up statistics of `__call__` and the dependency-tree construction they may trigger -/
+def statsPhase (fuel : Nat) (st : State T V) (ta tb : T) : Option (State T V) :=
+  if st.dt.isNone && !c.halfway then
+    let n := st.numEval + 1
+    if n > 0 then
+      let d := a.sub tb ta
+      let av := a.avg d st.avgDt n
+      let st' := { st with numEval := n, avgDt := av }
+      if a.below av st'.treeDt then depTree c a fuel st' d else some st'
+    else some { st with numEval := n }
+  else some st
+
 /-- result of a query: `(W, H-or-zero, U)` -/
 structure Ans (V : Type) where
   W : V
@@ -308,18 +320,7 @@ def call (fuel : Nat) (st : State T V) (ta tb : T) : Option (State T V × Ans V)
   let tb := if c.lt t1 tb then t1 else tb
   if c.lt tb ta then none else
   if c.eq (c.rnd ta) (c.rnd tb) then some (st, ⟨o.zero, o.zero, 0, 0⟩) else
-  -- warm-up statistics / dependency tree
-  let st1 : Option (State T V) :=
-    if st.dt.isNone && !c.halfway then
-      let n := st.numEval + 1
-      if n > 0 then
-        let d := a.sub tb ta
-        let av := a.avg d st.avgDt n
-        let st' := { st with numEval := n, avgDt := av }
-        if a.below av st'.treeDt then depTree c a fuel st' d else some st'
-      else some { st with numEval := n }
-    else some st
-  match st1 with
+  match statsPhase c a fuel st ta tb with
   | none => none
   | some st1 =>
     match loc c fuel st1.tree st1.last ta tb with
